@@ -189,7 +189,9 @@ def gen_root(rng, prop):
                            # tuples are opaque leaves to pyglove but their content can be mutable
                            ['t1', ['tuple', [['int', 1], ['list', [['int', 2], ['int', 3]]]]]],
                            ['t2', ['tuple', [['tuple', [['dict', [['a', ['int', 1]]]]]], ['str', 'x']]]],
-                           ['t3', ['tuple', [['leaf', {'x': 1}], ['int', 0]]]]]]
+                           ['t3', ['tuple', [['leaf', {'x': 1}], ['int', 0]]]],
+                           ['r1', ['ref', ['list', [['int', 1], ['int', 2]]]]],
+                           ['r2', ['ref', ['dict', [['a', ['list', [['int', 0]]]]]]]]]]
     elif k == 'rec':
         d['v'] = gen_rec(rng, 0)
     elif k == 'cb':
